@@ -81,12 +81,14 @@ package strategy
 //@   at_call strategy.Iterator.Clean#0 assert cleans_a_stored_entry_without_input_key: (itEOF || isnil(itKey)) && sameSlice(arg1, dbVal)
 //@   at_call lmdb.(*Cursor).Del#0 assert deletes_what_clean_dropped: ghost_loc_cLen == 0 && (itEOF || isnil(itKey))
 //@   at_call lmdb.(*Txn).Put#0 assert rewrites_the_cleaned_value_under_its_key: arg1 == dbi && sameSlice(arg2, dbKey) && arrayOf(arg3) == ghost_loc_cArr && offsetOf(arg3) == ghost_loc_cOff && uint64(len(arg3)) == ghost_loc_cLen
+//@   at_call lmdb.(*Txn).Put#0 assert never_rewrites_an_unchanged_cleaned_value: !seqEq(arg3, dbVal)
 //@   at_call strategy.Iterator.Merge#0 assert new_key_merges_with_nothing: isnil(arg1) && !itEOF && !isnil(itKey)
 //@   at_call lmdb.(*Cursor).Put#0 assert appends_the_merged_value_under_the_input_key: dbEOF && sameSlice(arg1, itKey) && arrayOf(arg2) == ghost_loc_mArr && offsetOf(arg2) == ghost_loc_mOff && uint64(len(arg2)) == ghost_loc_mLen && len(arg2) > 0
 //@   at_call lmdb.(*Txn).Put#1 assert inserts_the_merged_value_under_the_input_key: !dbEOF && isnil(dbKey) && arg1 == dbi && sameSlice(arg2, itKey) && arrayOf(arg3) == ghost_loc_mArr && offsetOf(arg3) == ghost_loc_mOff && uint64(len(arg3)) == ghost_loc_mLen && len(arg3) > 0
 //@   at_call strategy.Iterator.Merge#1 assert equal_keys_merge_the_stored_value: !dbEOF && !isnil(dbKey) && sameSlice(arg1, dbVal)
 //@   at_call lmdb.(*Cursor).Del#1 assert deletes_when_the_merge_yields_nothing: ghost_loc_nLen == 0
 //@   at_call lmdb.(*Txn).Put#2 assert replaces_with_the_merge_result_under_that_key: arg1 == dbi && sameSlice(arg2, itKey) && arrayOf(arg3) == ghost_loc_nArr && offsetOf(arg3) == ghost_loc_nOff && uint64(len(arg3)) == ghost_loc_nLen && len(arg3) > 0
+//@   at_call lmdb.(*Txn).Put#2 assert never_rewrites_an_unchanged_value: !seqEq(arg3, dbVal)
 
 //@ func IterUpdate
 //@   trusted
